@@ -42,6 +42,7 @@ type parked struct {
 	owner interface{} // *prunner.PipelineRunner, *stub, *store.JsonDataStore or nil: attributes the record to a world
 	goid  uint64
 	attr  lockAttr
+	lock  uintptr // identity of the lock the goroutine takes next (0: the runner lock of its world, if attr says so)
 	ch    chan int
 }
 
@@ -49,6 +50,9 @@ type parked struct {
 func (p *parked) rd() (point, name string, owner interface{}, goid uint64, attr lockAttr, ch chan int) {
 	return p.point, p.name, p.owner, p.goid, p.attr, p.ch
 }
+
+//go:norace
+func (p *parked) lockID() uintptr { return p.lock }
 
 // Core is the park/release machinery. All fields except arrivals are private to
 // the driver goroutine.
@@ -69,7 +73,11 @@ func newCore() *Core {
 // park is called on system goroutines. It blocks durably (channel receive)
 // until the driver releases the record, and returns the release code.
 func (c *Core) park(point, name string, owner interface{}, attr lockAttr) int {
-	p := &parked{point: point, name: name, owner: owner, goid: goid(), attr: attr, ch: make(chan int, 1)}
+	return c.parkL(point, name, owner, attr, 0)
+}
+
+func (c *Core) parkL(point, name string, owner interface{}, attr lockAttr, lock uintptr) int {
+	p := &parked{point: point, name: name, owner: owner, goid: goid(), attr: attr, lock: lock, ch: make(chan int, 1)}
 	raceOff()
 	c.arrivals <- p
 	code := <-p.ch
